@@ -123,6 +123,58 @@ fn finish_history(eng: &mut Eng, nontrivial: bool) {
     eng.finish();
 }
 
+/// Enumerated short histories on one address: every sequence of four (thorough: five) operations out of "store a new
+/// version created at 1 / 2 / 3" and "own address-deletion request created at 1 / 2 / 3", for a replaceable and a
+/// parameterised address, forty addresses per store, each under the oracles of the property named. Every refusal
+/// (Replaced, Deleted, ties) happens with and without a marker on the address, older and newer than the refused event.
+fn enumerated_address_histories(rep: &mut Report, args: &Args, prop: &'static str, cmd: &str, flags: Flags) {
+    let len = if args.thorough() { 5usize } else { 4 };
+    let total = 6usize.pow(len as u32);
+    let per_eng = 40usize;
+    let a = author(0);
+    for param in [false, true] {
+        let mut n = 0usize;
+        let mut chunk = 0u64;
+        while n < total {
+            let index = 1_000_000 + if param { 500_000 } else { 0 } + chunk;
+            chunk += 1;
+            let upto = (n + per_eng).min(total);
+            if let Some(x) = only_index(args) {
+                if x != index {
+                    n = upto;
+                    continue;
+                }
+            }
+            let mut rng = hist_rng(args.seed(), 0xC12E, index);
+            let mut eng = Eng::new(rep, prop, cmd, args.seed(), index, flags.clone(), 0);
+            eng.jump_at = None;
+            for h in n..upto {
+                let (kind, d): (u16, String) = if param { (30023, format!("e{h}")) } else { (10_000 + (h % 9_999) as u16, String::new()) };
+                let mut code = h;
+                for _ in 0..len {
+                    let sym = code % 6;
+                    code /= 6;
+                    let t = 1 + (sym % 3) as u64;
+                    let sem = if sym < 3 {
+                        SemEvent { id: rng.arr32(), pubkey: a, sig: [0x51; 64], kind, created_at: t, tags: if param { vec![vec!["d".into(), d.clone()]] } else { vec![] }, content: String::new() }
+                    } else {
+                        SemEvent { id: rng.arr32(), pubkey: a, sig: [0x51; 64], kind: 5, created_at: t, tags: vec![vec!["a".into(), format!("{kind}:{}:{d}", hex(&a))]], content: String::new() }
+                    };
+                    if eng.aborted {
+                        break;
+                    }
+                    if let Some(ev) = Ev::new(sem) {
+                        let _ = eng.store(&ev);
+                    }
+                }
+                eng.rep.count("enumerated_address_histories");
+            }
+            finish_history(&mut eng, true);
+            n = upto;
+        }
+    }
+}
+
 fn only_index(args: &Args) -> Option<u64> {
     args.get("index").and_then(|s| s.parse().ok())
 }
@@ -538,7 +590,13 @@ pub fn c09(args: &Args) -> Report {
         }
         finish_history(&mut eng, nt);
     }
+    {
+        let mut flags = base_flags();
+        flags.address_invariant = true;
+        enumerated_address_histories(&mut rep, args, "C09", "c09", flags);
+    }
     if only_index(args).is_none() {
+        rep.require("enumerated_address_histories", "the enumerated address histories did not run");
         rep.require("store_outcome:OLD", "no older-than-holder submission");
         rep.require("store_outcome:EQ", "no equal-timestamp submission");
         rep.require("address_invariant_checks", "address invariant never checked");
@@ -548,8 +606,91 @@ pub fn c09(args: &Args) -> Report {
 
 // ------------------------------------------------------------------------------------------ C10
 
+/// A request that arrives while every LMDB reader slot is taken (`Store::read_txn` handed out until it fails - a busy
+/// relay): internal lookups of the request's targets may fail. Whatever the request returns, the other author's
+/// events stay retrievable and neither they nor their addresses carry a marker once the readers are gone.
+fn c10_readers_exhausted(rep: &mut Report, args: &Args) {
+    use pocket_db::Store;
+    use pocket_types::{Addr, Id, Pubkey};
+    let dir = workdir().join(format!("c10_readers_{}", args.seed()));
+    let _ = std::fs::remove_dir_all(&dir);
+    if std::fs::create_dir_all(&dir).is_err() {
+        return;
+    }
+    let store = match Store::new(&dir, vec![]) {
+        Ok(s) => s,
+        Err(e) => {
+            rep.inconclusive.push(format!("readers-exhausted scenario: open failed: {e}"));
+            return;
+        }
+    };
+    let mut rng = hist_rng(args.seed(), 0xC10F, 0);
+    let (victim, attacker) = (author(0), author(1));
+    let mk = |rng: &mut Rng, pk: Id32, kind: u16, t: u64, tags: Vec<Vec<String>>| Ev::new(SemEvent { id: rng.arr32(), pubkey: pk, sig: [0x51; 64], kind, created_at: t, tags, content: String::new() }).unwrap();
+    let x = mk(&mut rng, victim, 1, 100, vec![]);
+    let r = mk(&mut rng, victim, 10002, 100, vec![]);
+    let p = mk(&mut rng, victim, 30023, 100, vec![vec!["d".into(), "x".into()]]);
+    let own = mk(&mut rng, attacker, 1, 100, vec![]);
+    for e in [&x, &r, &p, &own] {
+        let _ = store.store_event(&pocket_types::OwnedEvent(e.bytes.clone()));
+    }
+    let absent = rng.arr32();
+    let requests = vec![
+        mk(&mut rng, attacker, 5, 200, vec![vec!["e".into(), hex(&x.sem.id)]]),
+        mk(&mut rng, attacker, 5, 201, vec![vec!["e".into(), hex(&absent)], vec!["e".into(), hex(&x.sem.id)], vec!["a".into(), "nonsense".into()]]),
+        mk(&mut rng, attacker, 5, 202, vec![vec!["e".into(), hex(&own.sem.id)], vec!["e".into(), hex(&r.sem.id)], vec!["e".into(), hex(&p.sem.id)]]),
+        mk(&mut rng, attacker, 5, 203, vec![vec!["a".into(), format!("10002:{}:", hex(&victim))], vec!["a".into(), format!("30023:{}:x", hex(&victim))]]),
+    ];
+    let mut outcomes = vec![];
+    let held;
+    {
+        let mut readers = vec![];
+        while readers.len() < 4096 {
+            match store.read_txn() {
+                Ok(t) => readers.push(t),
+                Err(_) => break,
+            }
+        }
+        held = readers.len();
+        if held < 4096 {
+            rep.count("scenarios_with_every_reader_slot_taken");
+        }
+        for d in requests.iter() {
+            let o = catch(|| store.store_event(&pocket_types::OwnedEvent(d.bytes.clone())).map_err(|e| format!("{e}")));
+            outcomes.push(format!("{o:?}").chars().take(90).collect::<String>());
+        }
+        drop(readers);
+    }
+    let rp = json!({"kind":"readers-exhausted","seed":args.seed()});
+    rep.eval(fnv(b"readers-exhausted"), held < 4096);
+    for (nm, e) in [("plain", &x), ("replaceable", &r), ("parameterised", &p)] {
+        let id = Id::from_bytes(e.sem.id);
+        let there = matches!(store.get_event_by_id(id), Ok(Some(ev)) if ev.as_bytes() == e.bytes.as_slice());
+        let marked = !matches!(store.event_is_deleted(id), Ok(false));
+        rep.count("foreign_guard_checks_with_reader_slots_exhausted");
+        if !there || marked {
+            rep.finding(
+                &format!("deletion-request-affected-other-author:readers-exhausted:{}", if !there { "unretrievable" } else { "marker" }),
+                &format!("{held} read transactions were open when another author's requests arrived ({}); afterwards the victim's {nm} event is retrievable={there}, marked deleted={marked}", outcomes.join(" | ")),
+                rp.clone(),
+            );
+        }
+    }
+    for (kind, d) in [(10002u16, ""), (30023, "x")] {
+        let addr = Addr { kind: kind.into(), author: Pubkey::from_bytes(victim), d: d.as_bytes().to_vec() };
+        if !matches!(store.naddr_is_deleted_asof(&addr), Ok(None)) {
+            rep.finding("deletion-request-affected-other-author:readers-exhausted:address-marker", &format!("{held} read transactions open; requests: {}; the victim's address {kind}:..:{d} carries a marker", outcomes.join(" | ")), rp.clone());
+        }
+    }
+    let _ = store.verif_close();
+    let _ = std::fs::remove_dir_all(&dir);
+}
+
 pub fn c10(args: &Args) -> Report {
     let mut rep = Report::new("C10", &args.leg(), &args.tier(), args.seed());
+    if only_index(args).is_none() {
+        c10_readers_exhausted(&mut rep, args);
+    }
     let n = if args.thorough() { 8000 } else { 450 };
     for i in 0..n {
         if let Some(x) = only_index(args) {
@@ -645,7 +786,13 @@ pub fn c11(args: &Args) -> Report {
         }
         finish_history(&mut eng, nt);
     }
+    {
+        let mut flags = base_flags();
+        flags.marker_monotonic = true;
+        enumerated_address_histories(&mut rep, args, "C11", "c11", flags);
+    }
     if only_index(args).is_none() {
+        rep.require("enumerated_address_histories", "the enumerated address histories did not run");
         rep.require("marker_monotonicity_checks", "marker monotonicity never checked");
         rep.require("store_outcome:DEL", "no store of a covered event");
         rep.require("reopens", "no reopen");
@@ -686,8 +833,99 @@ fn disarm_failure() {
 
 pub const FAIL_STAGES: [&str; 6] = ["store.after_preremove", "store.after_append", "store.after_index", "delete.after_tag", "remove.between_deindex", "store.before_commit"];
 
+/// Stores that arrive while every LMDB reader slot is taken: whichever internal lookup fails, a store that returns an
+/// error has changed nothing (its targets are still there and unmarked), and one that returns Ok has done all of it.
+fn c12_readers_exhausted(rep: &mut Report, args: &Args) {
+    use pocket_db::Store;
+    use pocket_types::Id;
+    let dir = workdir().join(format!("c12_readers_{}", args.seed()));
+    let _ = std::fs::remove_dir_all(&dir);
+    if std::fs::create_dir_all(&dir).is_err() {
+        return;
+    }
+    let store = match Store::new(&dir, vec![]) {
+        Ok(s) => s,
+        Err(e) => {
+            rep.inconclusive.push(format!("readers-exhausted scenario: open failed: {e}"));
+            return;
+        }
+    };
+    let mut rng = hist_rng(args.seed(), 0xC12F, 0);
+    let a = author(0);
+    let mk = |rng: &mut Rng, kind: u16, t: u64, tags: Vec<Vec<String>>| Ev::new(SemEvent { id: rng.arr32(), pubkey: a, sig: [0x51; 64], kind, created_at: t, tags, content: String::new() }).unwrap();
+    let own: Vec<Rc<Ev>> = (0..4).map(|k| mk(&mut rng, 1, 100 + k, vec![])).collect();
+    let holder_r = mk(&mut rng, 10002, 100, vec![]);
+    let holder_p = mk(&mut rng, 30023, 100, vec![vec!["d".into(), "x".into()]]);
+    for e in own.iter().chain([&holder_r, &holder_p]) {
+        let _ = store.store_event(&pocket_types::OwnedEvent(e.bytes.clone()));
+    }
+    // (request, the ids it removes and marks when it succeeds)
+    let newer_r = mk(&mut rng, 10002, 200, vec![]);
+    let newer_p = mk(&mut rng, 30023, 200, vec![vec!["d".into(), "x".into()]]);
+    let calls: Vec<(Rc<Ev>, Vec<Id32>, bool)> = vec![
+        (mk(&mut rng, 5, 300, vec![vec!["e".into(), hex(&own[0].sem.id)], vec!["e".into(), hex(&own[1].sem.id)]]), vec![own[0].sem.id, own[1].sem.id], true),
+        (newer_r, vec![holder_r.sem.id], false),
+        (newer_p, vec![holder_p.sem.id], false),
+        (mk(&mut rng, 5, 301, vec![vec!["e".into(), hex(&rng_absent(args))], vec!["e".into(), hex(&own[2].sem.id)]]), vec![own[2].sem.id], true),
+    ];
+    let mut results = vec![];
+    let held;
+    {
+        let mut readers = vec![];
+        while readers.len() < 4096 {
+            match store.read_txn() {
+                Ok(t) => readers.push(t),
+                Err(_) => break,
+            }
+        }
+        held = readers.len();
+        for (ev, _, _) in calls.iter() {
+            results.push(catch(|| store.store_event(&pocket_types::OwnedEvent(ev.bytes.clone())).map_err(|e| format!("{e}"))));
+        }
+        drop(readers);
+    }
+    if held < 4096 {
+        rep.count("scenarios_with_every_reader_slot_taken");
+    }
+    rep.eval(fnv(b"c12-readers-exhausted"), held < 4096);
+    let rp = json!({"kind":"readers-exhausted","seed":args.seed()});
+    for ((ev, victims, marks), res) in calls.iter().zip(results.iter()) {
+        let ok = matches!(res, Ok(Ok(_)));
+        let stored = matches!(store.has_event(Id::from_bytes(ev.sem.id)), Ok(true));
+        for v in victims {
+            let id = Id::from_bytes(*v);
+            let there = matches!(store.has_event(id), Ok(true));
+            let marked = matches!(store.event_is_deleted(id), Ok(true));
+            rep.count("failed_or_completed_stores_checked_with_reader_slots_exhausted");
+            if !ok && (!there || marked || stored) {
+                rep.finding(
+                    "failed-store-changed-state:readers-exhausted",
+                    &format!("{held} read transactions open; the store of {} returned {:?}, yet afterwards: request stored={stored}, target {} present={there} marked={marked}", ev.short(), res, hex(&v[..3])),
+                    rp.clone(),
+                );
+            }
+            if ok && (there || (*marks && !marked) || !stored) {
+                rep.finding(
+                    "successful-store-incomplete:readers-exhausted",
+                    &format!("{held} read transactions open; the store of {} returned Ok, yet afterwards: stored={stored}, target {} present={there} marked={marked}", ev.short(), hex(&v[..3])),
+                    rp.clone(),
+                );
+            }
+        }
+    }
+    let _ = store.verif_close();
+    let _ = std::fs::remove_dir_all(&dir);
+}
+
+fn rng_absent(args: &Args) -> Id32 {
+    hist_rng(args.seed(), 0xAB5E, 1).arr32()
+}
+
 pub fn c12(args: &Args) -> Report {
     let mut rep = Report::new("C12", &args.leg(), &args.tier(), args.seed());
+    if only_index(args).is_none() {
+        c12_readers_exhausted(&mut rep, args);
+    }
     install_fail_handler();
     let n = if args.thorough() { 5000 } else { 250 };
     for i in 0..n {
@@ -769,8 +1007,14 @@ pub fn c12(args: &Args) -> Report {
         }
         finish_history(&mut eng, nt);
     }
+    {
+        let mut flags = base_flags();
+        flags.snapshot_failed_stores = true;
+        enumerated_address_histories(&mut rep, args, "C12", "c12", flags);
+    }
     pocket_db::verif::set_fail_handler(None);
     if only_index(args).is_none() {
+        rep.require("enumerated_address_histories", "the enumerated address histories did not run");
         rep.require("failed_stores_snapshotted", "no failing store snapshotted");
         rep.require("injected_failure_fired:store.after_preremove", "injection stage store.after_preremove never fired");
         rep.require("injected_failure_fired:store.after_append", "injection stage store.after_append never fired");
@@ -1105,7 +1349,13 @@ fn c18_bulk_vanish(rep: &mut Report, args: &Args) {
         let w = mk(&mut rng, other, 1059, 5000 + k as u64, vec![vec!["p".into(), hex(&victim)]]);
         put(&w, &mut targets);
         if k % 100 == 0 {
-            let b = mk(&mut rng, other, 1059, 5000 + k as u64, vec![vec!["p".into(), hex(&author(2))]]);
+            let near = match (k / 100) % 4 {
+                0 => hex(&author(2)),
+                1 => format!("{}\u{0}", hex(&victim)),
+                2 => format!("{}0", hex(&victim)),
+                _ => hex(&victim)[..63].to_string(),
+            };
+            let b = mk(&mut rng, other, 1059, 5000 + k as u64, vec![vec!["p".into(), near]]);
             put(&b, &mut bystanders); // a gift-wrap for someone else
         }
     }
